@@ -70,3 +70,35 @@ def differential(rep, ctx, seed, n):
     rep.counters['traces_validated_against_impl'] += len(lines) - len(bad)
     if bad: rep.inconc('differential validation mismatch (server side): case %r native %r engine %r' % bad[0])
     return not bad
+
+
+def history_to_ops(hist):
+    cfg, W = 'plain', 1; ops = []
+    for h in hist:
+        if h.startswith('cfg='):
+            for kv in h.split():
+                k, v = kv.split('='); cfg, W = (v, W) if k == 'cfg' else (cfg, int(v))
+        elif h == 'poll_server': ops.append('poll')
+        elif h.startswith('stop('): ops.append('stop:g' if 'graceful' in h else 'stop:f')
+        elif h.startswith('SIG'): ops.append('sig:' + h[3:].lower())
+        elif h.startswith('worker'): ops.append('w' + h[6:])
+        elif h in ('pause', 'resume') or h.startswith('tick:'): ops.append(h)
+    return cfg, W, ops
+
+
+def replay_history(ctx, hist):
+    cfg, W, ops = history_to_ops(hist)
+    line = 'cfg=%s W=%d | %s' % (cfg, W, ' '.join(ops))
+    nat = run_native([line])[0]
+    try: sym = sym_trace(ctx, cfg, W, ops)
+    except Panic: sym = 'PANIC'
+    return line, nat, sym
+
+
+def replay_file(path):
+    import json
+    from props import srvworld
+    d = json.load(open(path)); ctx = srvrworld.SrvrCtx(srvworld.SrvCtx())
+    line, nat, sym = replay_history(ctx, d['history'])
+    print('schedule:', line); print('native trace:', nat); print('engine trace:', sym); print('obligation:', d['obligation'], '--', d['what'])
+    return 1 if nat.strip() == sym.strip() else 0
